@@ -334,10 +334,25 @@ func checkC16(c CaseC16, info *Info) *Failure {
 	if c.Alias != nil && c.Src == "value" {
 		// the same content built three times: twice by value, once with one container object referenced from two places
 		probe := copyMap(m)
-		if applyAlias(probe, *c.Alias, false) {
+		rootList := false
+		if len(probe) == 1 {
+			for k, v := range probe {
+				_, isList := v.([]interface{})
+				rootList = isList || specialKey(k)
+			}
+		}
+		if applyAlias(probe, *c.Alias, false) && !rootList {
+			if len(probe) == 1 {
+				for k, v := range probe {
+					_, isList := v.([]interface{})
+					rootList = isList || specialKey(k)
+				}
+			}
+		}
+		if !rootList && !reflect.DeepEqual(probe, m) {
 			m = probe
 		} else {
-			c.Alias = nil
+			c.Alias = nil // (a single key holding a list is a root without an element name: outside the domain)
 		}
 	}
 	m2 := rebuild(m, s).(map[string]interface{})
